@@ -904,7 +904,7 @@ pub fn flags_for(focus: Focus) -> u32 {
 
 pub fn golden_seeds() -> Vec<(String, Vec<u8>)> {
     let mut v = vec![];
-    for dir in ["/verif/seeds", "/repo/tests/data"] {
+    for dir in [format!("{}/seeds", verif_dir()), "/repo/tests/data".to_string()] {
         if let Ok(rd) = std::fs::read_dir(dir) {
             let mut names: Vec<_> = rd.filter_map(|e| e.ok()).map(|e| e.path()).filter(|p| p.extension().map_or(false, |x| x == "aseprite" || x == "ase")).collect();
             names.sort();
@@ -930,9 +930,9 @@ pub fn campaign(run: &mut Run, focus: Focus) {
     let seed = run.seed;
 
     // (0) regression inputs
-    let regdir = format!("{}/regressions/{}", VERIF_DIR, run.prop);
+    let regdir = format!("{}/regressions/{}", verif_dir(), run.prop);
     let mut regs: Vec<(String, Vec<u8>)> = vec![];
-    for d in [regdir, format!("{}/regressions/shared", VERIF_DIR)] {
+    for d in [regdir, format!("{}/regressions/shared", verif_dir())] {
         if let Ok(rd) = std::fs::read_dir(&d) {
             let mut ps: Vec<_> = rd.filter_map(|e| e.ok()).map(|e| e.path()).collect();
             ps.sort();
@@ -1104,11 +1104,11 @@ pub fn campaign(run: &mut Run, focus: Focus) {
                     o.nontrivial = true;
                 }
             }
-            let path = format!("{}/evidence/replay/{}-shape-{}.ase", VERIF_DIR, run.prop, name);
+            let path = format!("{}/evidence/replay/{}-shape-{}.ase", verif_dir(), run.prop, name);
             let is_err = r.is_err();
             run.direct(|| json!({"shape": name, "ase_file": path.clone(), "hex": if b.len() < 4000 { hex(b) } else { String::new() }}), r);
             if is_err {
-                let _ = std::fs::create_dir_all(format!("{}/evidence/replay", VERIF_DIR));
+                let _ = std::fs::create_dir_all(format!("{}/evidence/replay", verif_dir()));
                 let _ = std::fs::write(&path, b);
             }
         }
